@@ -84,6 +84,13 @@ def families(s: int):
                [nh.from_array(np.array([1.0, 2.0, 3.0], dtype=np.float32), "k"), nh.from_array(np.array([0.5, 0.5, 2.0], dtype=np.float32), "d"),
                 nh.from_array(np.array([1], dtype=np.int64), "ax")], s)
     out.append(("Add/Mul/ReduceSum with initializer-input", m, [("x", F, (2, 3)), ("d", F, (3,))]))
+    # initializers of assorted sizes (an external converter may treat large tensors differently from small ones)
+    for n in (31, 32, 48):
+        wv = ((np.arange(n * n) % 7) - 3).astype(np.float32).reshape(n, n) / 4
+        bv = (np.arange(n) % 5).astype(np.float32)
+        m = _model([oh.make_node("MatMul", ["x", "W"], ["t"]), oh.make_node("Add", ["t", "b"], ["u"]), oh.make_node("Relu", ["u"], ["y"])],
+                   [("x", F, [2, n])], [("y", F, [2, n])], [nh.from_array(wv, "W"), nh.from_array(bv, "b")], s)
+        out.append((f"MatMul/Add/Relu with a {n}x{n} initializer", m, [("x", F, (2, n))]))
     # model-local function containing an adapter op
     fn = oh.make_function("local", "Norm", ["p", "ps", "pb"], ["q"],
                           [oh.make_node("GroupNormalization", ["p", "ps", "pb"], ["q0"], num_groups=2), oh.make_node("Relu", ["q0"], ["q"])],
@@ -150,6 +157,11 @@ def _worker(payload):
         got = [i for i in new.graph.initializer if i.name == init.name]
         if init.name in {i.name for i in mp.graph.input} and not got:
             rec["problems"].append(f"initializer-input {init.name} lost")
+        elif not got and any(init.name in n.input for n in new.graph.node):
+            rec["problems"].append(f"initializer {init.name} lost although still referenced")
+        elif got and got[0].SerializeToString(deterministic=True) != init.SerializeToString(deterministic=True) and got[0].raw_data != init.raw_data \
+                and nh.to_array(got[0]).tobytes() != nh.to_array(init).tobytes():
+            rec["problems"].append(f"initializer {init.name} changed its value")
     for p in W.check_model(new):
         rec["problems"].append("malformed: " + p)
     try:
